@@ -31,6 +31,8 @@ const (
 var typeNames = [...]string{"?", "CONNECT", "CONNACK", "PUBLISH", "PUBACK", "PUBREC", "PUBREL", "PUBCOMP", "SUBSCRIBE", "SUBACK", "UNSUBSCRIBE", "UNSUBACK", "PINGREQ", "PINGRESP", "DISCONNECT", "AUTH"}
 
 // TypeName returns the name of a packet type.
+//
+//go:norace
 func TypeName(t byte) string {
 	if int(t) < len(typeNames) {
 		return typeNames[t]
@@ -47,11 +49,11 @@ const (
 
 // Sub is one topic filter of a SUBSCRIBE.
 type Sub struct {
-	Filter string
-	QoS    byte
+	Filter  string
+	QoS     byte
 	NoLocal bool
-	RAP    bool
-	RH     byte
+	RAP     bool
+	RH      byte
 }
 
 // Props are the MQTT 5 properties. A nil pointer / nil slice means absent.
@@ -131,6 +133,7 @@ type Packet struct {
 	Size int // total encoded size in bytes (decode only)
 }
 
+//go:norace
 func (p *Packet) String() string {
 	switch p.Type {
 	case PUBLISH:
@@ -157,14 +160,27 @@ func (p *Packet) String() string {
 
 type enc struct{ b []byte }
 
-func (e *enc) u8(v byte)    { e.b = append(e.b, v) }
+//go:norace
+func (e *enc) u8(v byte) { e.b = append(e.b, v) }
+
+//go:norace
 func (e *enc) u16(v uint16) { e.b = append(e.b, byte(v>>8), byte(v)) }
+
+//go:norace
 func (e *enc) u32(v uint32) { e.b = append(e.b, byte(v>>24), byte(v>>16), byte(v>>8), byte(v)) }
+
+//go:norace
 func (e *enc) bin(v []byte) { e.u16(uint16(len(v))); e.b = append(e.b, v...) }
+
+//go:norace
 func (e *enc) str(v string) { e.u16(uint16(len(v))); e.b = append(e.b, v...) }
+
+//go:norace
 func (e *enc) vbi(v uint32) { e.b = AppendVBI(e.b, v) }
 
 // AppendVBI appends the canonical variable byte integer encoding of v.
+//
+//go:norace
 func AppendVBI(b []byte, v uint32) []byte {
 	for {
 		d := byte(v % 128)
@@ -179,6 +195,7 @@ func AppendVBI(b []byte, v uint32) []byte {
 	}
 }
 
+//go:norace
 func (e *enc) props(p *Props) {
 	var q enc
 	if p != nil {
@@ -298,6 +315,8 @@ func (e *enc) props(p *Props) {
 
 // Encode returns the wire bytes of p for protocol level ver (3, 4 or 5). It does not validate:
 // the simulator may deliberately produce packets a conforming sender would not.
+//
+//go:norace
 func Encode(p *Packet, ver byte) []byte {
 	var v enc // variable header + payload
 	flags := byte(0)
@@ -461,12 +480,17 @@ type dec struct {
 	err error
 }
 
+//go:norace
 func (d *dec) fail(f string, a ...any) {
 	if d.err == nil {
 		d.err = fmt.Errorf("mqttc: "+f, a...)
 	}
 }
+
+//go:norace
 func (d *dec) left() int { return len(d.b) - d.pos }
+
+//go:norace
 func (d *dec) u8() byte {
 	if d.err != nil || d.left() < 1 {
 		d.fail("truncated")
@@ -476,6 +500,8 @@ func (d *dec) u8() byte {
 	d.pos++
 	return v
 }
+
+//go:norace
 func (d *dec) u16() uint16 {
 	if d.err != nil || d.left() < 2 {
 		d.fail("truncated")
@@ -485,6 +511,8 @@ func (d *dec) u16() uint16 {
 	d.pos += 2
 	return v
 }
+
+//go:norace
 func (d *dec) u32() uint32 {
 	if d.err != nil || d.left() < 4 {
 		d.fail("truncated")
@@ -494,6 +522,8 @@ func (d *dec) u32() uint32 {
 	d.pos += 4
 	return v
 }
+
+//go:norace
 func (d *dec) bin() []byte {
 	n := int(d.u16())
 	if d.err != nil || d.left() < n {
@@ -507,6 +537,8 @@ func (d *dec) bin() []byte {
 
 // ValidUTF8 reports whether b is a well-formed MQTT UTF-8 string (1.5.4): valid UTF-8, no U+0000,
 // no surrogates (rejected by utf8.Valid already).
+//
+//go:norace
 func ValidUTF8(b []byte) bool {
 	if !utf8.Valid(b) {
 		return false
@@ -519,6 +551,7 @@ func ValidUTF8(b []byte) bool {
 	return true
 }
 
+//go:norace
 func (d *dec) str() string {
 	b := d.bin()
 	if d.err == nil && !ValidUTF8(b) {
@@ -526,6 +559,8 @@ func (d *dec) str() string {
 	}
 	return string(b)
 }
+
+//go:norace
 func (d *dec) vbi() uint32 {
 	var v uint32
 	var mul uint32 = 1
@@ -547,10 +582,17 @@ func (d *dec) vbi() uint32 {
 	return 0
 }
 
-func bp(v byte) *byte       { return &v }
+//go:norace
+func bp(v byte) *byte { return &v }
+
+//go:norace
 func u16p(v uint16) *uint16 { return &v }
+
+//go:norace
 func u32p(v uint32) *uint32 { return &v }
-func sp(v string) *string   { return &v }
+
+//go:norace
+func sp(v string) *string { return &v }
 
 // which properties are allowed in which packet (MQTT 5, table 2-4); index = property id
 var propAllowed = map[byte][]byte{
@@ -584,6 +626,8 @@ var propAllowed = map[byte][]byte{
 }
 
 // props decodes a property block for packet type pt (0xFF = will properties).
+//
+//go:norace
 func (d *dec) props(pt byte) *Props {
 	n := int(d.vbi())
 	if d.err != nil {
@@ -693,6 +737,8 @@ func (d *dec) props(pt byte) *Props {
 // Decode decodes one packet from the front of b for protocol level ver (for CONNECT the level in
 // the packet decides). It returns the packet and the number of bytes consumed; ErrShort when b does
 // not yet hold a complete packet.
+//
+//go:norace
 func Decode(b []byte, ver byte) (*Packet, int, error) {
 	if len(b) < 2 {
 		return nil, 0, ErrShort
@@ -922,6 +968,8 @@ type Parser struct {
 
 // Feed appends bytes and returns the complete packets now available. After an error the stream is
 // unusable (the error is returned again on every call).
+//
+//go:norace
 func (ps *Parser) Feed(b []byte) ([]*Packet, error) {
 	ps.buf = append(ps.buf, b...)
 	var out []*Packet
@@ -942,4 +990,6 @@ func (ps *Parser) Feed(b []byte) ([]*Packet, error) {
 }
 
 // Pending returns the number of buffered bytes that do not yet form a packet.
+//
+//go:norace
 func (ps *Parser) Pending() int { return len(ps.buf) }
